@@ -174,6 +174,9 @@ M = {
                                      'a batch refused at its second cell has already grown the sheet for its first (part of the repaired defect 44c45aa)'),
     'c04-generator-batch-lost': ('C04', [(SRC + 'utilities/executor.py', "        cells = list(cells)\n", "")], 'a batch given as a generator is walked twice and stores nothing (part of 44c45aa)'),
     'c04-callers-objects-kept': ('C04', [(SRC + 'utilities/executor.py', "{cell.uid: copy(cell) for cell in cells}", "{cell.uid: cell for cell in cells}")], 'the overrides are the caller\'s Cell objects again (part of 44c45aa)'),
+    'c12-sumif-adds-anything': ('C12', [(CTX, "criteria(range_[i]) and isinstance(sum_range[i], (int, float)):", "criteria(range_[i]):")],
+                                'SUMIF adds whatever the selected cell holds again: TypeError on a text (the repaired defects f2f712a / f42018f)'),
+    'c16-negative-zero': ('C16', [(CTX, "float(result) + 0.0", "float(result)")], 'a negative amount rounded to nothing is -0.0 again (part of the repaired defect 625a7a1)'),
 }
 
 
